@@ -4,7 +4,7 @@ set -u
 PATCH=$1; ID=$2; TIER=${3:-quick}
 cd /repo || exit 2
 if ! git diff --quiet; then echo "/repo working tree is dirty"; exit 2; fi
-if ! git apply --3way "$PATCH" >/dev/null 2>&1; then echo "patch does not apply"; git checkout -- . ; exit 2; fi
+if ! git apply --3way "$PATCH" >/dev/null 2>&1; then echo "patch does not apply"; git reset -q --hard HEAD; exit 2; fi
 git reset -q   # --3way stages; keep the change in the working tree only
 cd /verif && ./check "$ID" "$TIER" 2>&1 | grep -v '^  obs\|conda' | cut -c1-400 | head -${LINES_OUT:-8}
 rc=${PIPESTATUS[0]}
